@@ -177,6 +177,8 @@ class Verdict:
     def from_report(self, rep):
         for f in rep["failures"]:
             self.failure(f["class"], f, f.get("matches_asbuilt", True))
+        for cls in self.known_hit:
+            self.known_hit[cls][0] = rep["counters"].get("fail:" + cls, self.known_hit[cls][0])
         # failures beyond the verbatim cap still count: classes listed in counters
         listed = {f["class"] for f in rep["failures"]}
         for k, n in rep["counters"].items():
@@ -195,7 +197,10 @@ class Verdict:
         shown = {}
         for cls, path in self.violations:
             shown.setdefault(cls, [path, 0])[1] += 1
-        for cls, (path, n) in shown.items():
+        for k, (cls, (path, n)) in enumerate(shown.items()):
+            if k == 12:
+                log("... %d more failure classes (see %s)" % (len(shown) - 12, self.rdir))
+                break
             log("VIOLATION property=%s replay=%s class=%s count=%d" % (self.pid, path, cls, n))
         return 1 if self.violations else 0
 
